@@ -70,12 +70,33 @@ func (a *SubAdapter) mkBase() (*subBase, error) {
 			return nil, err
 		}
 		b.top, b.setup, b.cleanup = fs, fs, func() { _ = os.RemoveAll(tmp) }
-	case "mntat", "mntabove":
+	case "mntat", "mntabove", "mntnested":
 		root, _ := mem.NewFS()
 		mfs, _ := mount.NewFS(root)
 		point := dir // the Sub directory is itself a mount point
 		if a.Cfg.Base == "mntabove" {
 			point = dir + "/a" // a mount point below the Sub directory, inside the call alphabet
+		}
+		if a.Cfg.Base == "mntnested" {
+			// the Sub directory lies inside a mounted file system and another mount point lies below it
+			outer := strings.Split(dir, "/")[0]
+			if err := hackpadfs.MkdirAll(root, outer, 0755); err != nil {
+				return nil, err
+			}
+			outerFS, _ := mem.NewFS()
+			if err := mfs.AddMount(outer, outerFS); err != nil {
+				return nil, err
+			}
+			point = dir + "/a"
+			if err := hackpadfs.MkdirAll(mfs, point, 0755); err != nil {
+				return nil, err
+			}
+			inner, _ := mem.NewFS()
+			if err := mfs.AddMount(point, inner); err != nil {
+				return nil, err
+			}
+			b.top, b.setup = mfs, mfs
+			break
 		}
 		if err := hackpadfs.MkdirAll(root, point, 0755); err != nil {
 			return nil, err
@@ -112,6 +133,7 @@ type SubInst struct {
 	probeB  *Inst // calls through the parent at dir/name
 	dirty   bool
 	lastObs [2]Obs
+	escaped string // set when an os-backed view resolves outside its scratch directory: nothing is executed
 }
 
 type prefixed struct {
@@ -136,6 +158,12 @@ func (a *SubAdapter) New(init *tla.Value) (engine.Instance, error) {
 		}
 	}
 	in.view = view
+	if osv, ok := view.(*hpos.FS); ok {
+		// an os-backed view whose root is not inside the scratch directory must never be written through
+		if p, err := osv.ToOSPath("."); err != nil || !strings.Contains(p, "verif-sub-") {
+			in.escaped = fmt.Sprintf("the view's root is %q (%v)", p, err)
+		}
+	}
 	in.probeA = NewProbe(&a.Cfg.Config, view)
 	cfgB := a.Cfg.Config
 	nm := map[string]string{}
@@ -158,6 +186,9 @@ func (in *SubInst) joined(p string) string {
 }
 
 func (in *SubInst) Apply(call *tla.Value) any {
+	if in.escaped != "" {
+		return Obs{Kind: "ESCAPED"}
+	}
 	oA := in.probeA.Apply(call).(Obs)
 	// the same call on the parent of the twin, at dir joined with name
 	p, q := in.probeA.path(call.F("p")), in.probeA.path(call.F("q"))
@@ -186,6 +217,10 @@ func (in *SubInst) strip(p string) string {
 }
 
 func (in *SubInst) CheckResult(call, tr *tla.Value, obs any) []engine.Div {
+	if in.escaped != "" {
+		in.dirty = true
+		return []engine.Div{{Prop: in.cfg.PropSub, Sig: in.probeA.sig(call, tr, "confinement view-root-outside-directory"), Detail: in.escaped}}
+	}
 	oA, oB := in.lastObs[0], in.lastObs[1]
 	var divs []engine.Div
 	add := func(what, detail string) {
@@ -283,6 +318,12 @@ func (in *SubInst) snapshot(b *subBase) map[string]string {
 }
 
 func (in *SubInst) CheckState(exp *tla.Value, call, tr *tla.Value) []engine.Div {
+	if in.escaped != "" {
+		if call == nil {
+			return nil
+		}
+		return []engine.Div{{Prop: in.cfg.PropSub, Sig: in.probeA.sig(call, tr, "confinement view-root-outside-directory"), Detail: in.escaped}}
+	}
 	var divs []engine.Div
 	add := func(what, detail string) {
 		divs = append(divs, engine.Div{Prop: in.cfg.PropSub, Sig: in.probeA.sig(call, tr, what), Detail: detail})
